@@ -52,9 +52,9 @@ from simkit.rng import seed_globals, unit  # noqa: E402
 from simkit.world import InvalidScenario, Monitor, Violation, result, run_sim  # noqa: E402
 
 PROPERTY = "C18"
-RUNS = {"quick": 4000, "thorough": 1_000_000}
+RUNS = {"quick": 10000, "thorough": 1_000_000}
 WALL = {"quick": 45, "thorough": 1500}
-BATCH = {"quick": 50, "thorough": 400}
+BATCH = {"quick": 100, "thorough": 400}
 RULE = (
     "each case is one generated history run on the real engine over a chaos mesh (keyed per-message delays, "
     "duplicating proxy, partition/loss/pause windows): class 'clocks' = 2-5 nodes x <=40 scripted local/send events "
